@@ -6,7 +6,7 @@ extra = json.loads(sys.argv[4]) if len(sys.argv) > 4 else {}
 dst = os.path.join('/verif/seeded', sid)
 os.makedirs(dst, exist_ok=True)
 for f in os.listdir(src):
-    if f.endswith('.log') and os.path.getsize(os.path.join(src, f)) > 200000: continue
+    if os.path.isdir(os.path.join(src, f)) or (f.endswith(".log") and os.path.getsize(os.path.join(src, f)) > 200000): continue
     shutil.copy(os.path.join(src, f), dst)
 meta = {"seed": sid, "property": extra.get("property", sid[:3]), "breaks": extra.get("breaks", ""), "needs_to_manifest": needs,
         "origin": "independent sub-agent given only the property text and a scratch worktree",
